@@ -219,6 +219,11 @@ func (mdb *metadataDatabase) handleRow(row *metric.StorageRow) {
 
 // gc clears expired metric meta store.
 func (mdb *metadataDatabase) gc(gcTimestamp int64) {
+	// hold the lock over the scan and the rebuild: a metric store created and indexed in between
+	// (getOrCreateMetricMeta/indexMetaStore) would lose its metric id => memory metric id entry.
+	mdb.lock.Lock()
+	defer mdb.lock.Unlock()
+
 	activeMetricIDs := make(map[uint64]struct{})
 
 	// gc metric store
@@ -234,8 +239,6 @@ func (mdb *metadataDatabase) gc(gcTimestamp int64) {
 
 	active := len(activeMetricIDs)
 
-	mdb.lock.Lock()
-	defer mdb.lock.Unlock()
 	// gc metric store index
 	if active == 0 && !mdb.metricIndexStore.IsEmpty() {
 		mdb.metricIndexStore = imap.NewIntMap[uint64]()
